@@ -1,4 +1,5 @@
 import Pm.Dev2Count
+import Pm.Dev2Timer
 /-! # C12 — failures are contained, reported and recovered from
 
 Ranking: back-off spacing (done) ▸ a failing head takes the whole queue with it, each client action reported once
@@ -58,5 +59,183 @@ theorem C12_fail_all_reports (rest : List Action) (c : CS) (a : Action) (o : Ora
 theorem C12_rewind_initial (a : Action) (e : ExecCtx) (h : a.exec.getLast? = some e) :
     (rewind a).exec = [{ e with pos := 0, processing := false, plugItr := none }] := by
   unfold rewind; simp [h]
+
+/-! ## i/o errors, restart after a connect, what a time-out reports, recovery
+
+Helper lemmas: `Pm/Dev2Timer.lean`.  `closeOf fd` is `[close fd]` for a descriptor held and `[]` otherwise; `reapOf p pid` is
+`[kill pid, waitpid pid]` for a coprocess (`p`) with a recorded child and `[]` otherwise; `dropLogin q` is `q` without a
+leading login action (script 0); `backoffEnd d = d.lastRetry + rtab[min (d.retryCount − 1) 6]·10⁶`. -/
+section recovery
+open Pm.Dev2.Timer Pm.Dev2.Fd Pm.Dev2.Interp
+
+/-- **When `_handle_ready_device` reports an i/o error on a CONNECTED device** (holding a descriptor): exactly when `poll`
+    reports POLLHUP/POLLERR/POLLNVAL, or POLLOUT with nothing to write ("write sent no data") or a failing `write`, or
+    POLLIN with a failing `read` or end of file. -/
+theorem C12_ioerr_kinds (c : CS) (h2 : c.dev.conn = 2) (hfd : c.dev.fd.isSome = true) :
+    (handleReady c).2 = true ↔
+      (c.env.revents &&& 4 != 0 || c.env.revents &&& 8 != 0 || c.env.revents &&& 16 != 0) = true ∨
+      ((c.env.revents &&& 2 != 0) = true ∧ (c.dev.toBuf.isEmpty = true ∨ c.env.writeOk = false)) ∨
+      ((c.env.revents &&& 1 != 0) = true ∧ (c.env.read = some none ∨ c.env.read = some (some []))) :=
+  handleReady_connected_ioerr c h2 hfd
+
+/-- **An i/o error disconnects, keeps every client action, and leads to a reconnect or its back-off.**  Let
+    `c1 = (handleReady c).1` be the state in which `_handle_ready_device` reports the error on a CONNECTED device.
+    (1) It has touched neither the queue, nor the descriptor, the child, the transport, the login flag, and has not
+    aborted.  (2) `_disconnect` — which `_reconnect` runs first since the state is not NOT_CONNECTED — closes that
+    descriptor, signals and reaps the coprocess child if there is one, and nothing else; afterwards no descriptor (and,
+    for a coprocess, no child) is recorded, both buffers are empty, the state is NOT_CONNECTED and not logged in; a login
+    action at the head of the queue is removed and EVERY OTHER queued action is kept, in order.  (3) Then `_reconnect`
+    either makes a connect attempt at once (no attempt counted so far, or the back-off is over) or changes nothing more
+    and registers the remaining back-off.  (4) In `dev_post_poll` that `_reconnect` is what follows an i/o error. -/
+theorem C12_ioerr (c : CS) (tmo : Option Time) (h2 : c.dev.conn = 2) (hfd : c.dev.fd.isSome = true)
+    (he : (handleReady c).2 = true) :
+    ((handleReady c).1.dev.acts = c.dev.acts ∧ (handleReady c).1.dev.conn = 2 ∧ (handleReady c).1.dev.fd = c.dev.fd ∧
+      (handleReady c).1.dev.cpid = c.dev.cpid ∧ (handleReady c).1.dev.isPipe = c.dev.isPipe ∧
+      (handleReady c).1.dev.loggedIn = c.dev.loggedIn ∧ (handleReady c).1.aborted = c.aborted) ∧
+    ((disconnectDev (handleReady c).1).sys = (handleReady c).1.sys ++ closeOf c.dev.fd ++ reapOf c.dev.isPipe c.dev.cpid ∧
+      (disconnectDev (handleReady c).1).dev.fd = none ∧
+      (disconnectDev (handleReady c).1).dev.cpid = (if c.dev.isPipe then none else c.dev.cpid) ∧
+      (disconnectDev (handleReady c).1).dev.toBuf = [] ∧ (disconnectDev (handleReady c).1).dev.fromBuf = [] ∧
+      (disconnectDev (handleReady c).1).dev.conn = 0 ∧ (disconnectDev (handleReady c).1).dev.loggedIn = false ∧
+      (disconnectDev (handleReady c).1).dev.acts = dropLogin c.dev.acts ∧
+      (disconnectDev (handleReady c).1).aborted = c.aborted) ∧
+    ((((handleReady c).1.dev.retryCount = 0 ∨ backoffEnd (handleReady c).1.dev ≤ (handleReady c).1.env.now) ∧
+        reconnectDev (handleReady c).1 tmo = (connectDev (disconnectDev (handleReady c).1), tmo)) ∨
+      (0 < (handleReady c).1.dev.retryCount ∧ (handleReady c).1.env.now < backoffEnd (handleReady c).1.dev ∧
+        reconnectDev (handleReady c).1 tmo =
+          (disconnectDev (handleReady c).1, upd tmo (backoffEnd (handleReady c).1.dev - (handleReady c).1.env.now)))) ∧
+    Pm.Dev2.Login2.postPollReconnect (handleReady c) = reconnectDev (handleReady c).1 none := by
+  obtain ⟨f1, f2, f3, f4, f5, f6, f7⟩ := handleReady_connected_frame c h2 hfd he
+  obtain ⟨s1, s2, s3, s4, s5, s6, s7, s8, s9, _⟩ := disconnectDev_spec (handleReady c).1
+  refine ⟨⟨f1, f2, f3, f4, f5, f6, f7⟩, ⟨?_, s2, ?_, s4, s5, s6, s7, ?_, ?_⟩,
+    reconnectDev_connected (handleReady c).1 tmo (by rw [f2]; decide), ?_⟩
+  · rw [s1, f3, f4, f5]
+  · rw [s3, f4, f5]
+  · rw [s8, f1]
+  · rw [s9, f7]
+  · unfold Pm.Dev2.Login2.postPollReconnect; simp [he]
+
+/-- the queue rule of `_disconnect`, spelled out -/
+theorem C12_dropLogin (a : Action) (r : List Action) :
+    dropLogin [] = [] ∧ (a.com = 0 → dropLogin (a :: r) = r) ∧ (a.com ≠ 0 → dropLogin (a :: r) = a :: r) := by
+  refine ⟨rfl, fun h => by simp [dropLogin, h], fun h => by simp [dropLogin, h]⟩
+
+/-- non-vacuity: hang-up on the connected coprocess device of `Props/C20` with two client actions queued — descriptor
+    closed, child signalled and reaped, both actions still queued in order behind the new login action (the reconnect
+    goes through at once), and — this pass — the login script (`delay 0`) has already run -/
+example : (handleReady ⟨Timer.Ex.pipeBusy, exEnv, [], false⟩).2 = true ∧
+    ((postPoll Timer.Ex.pipeBusy exEnv ⟨[]⟩).1.sys.take 3 matches [Sys.close 3000, Sys.kill 5000, Sys.waitpid 5000]) = true ∧
+    (postPoll Timer.Ex.pipeBusy exEnv ⟨[]⟩).1.dev.acts.map (·.clientId) = [1, 2] ∧
+    (postPoll Timer.Ex.pipeBusy exEnv ⟨[]⟩).1.dev.loggedIn = true := by decide
+
+/-- **Restart after a connect (`_connect`).**  When `_connect`, called in state NOT_CONNECTED, succeeds at once (pass not
+    aborted, state CONNECTED afterwards) the queue becomes: the login action, then the former head REWOUND, then the
+    rest unchanged.  And if that former head `a` was well-formed (`StackOK`: the invariant of the interpreter proofs,
+    `Props/C08`) then the rewound action consists of the single context of its outermost block at position 0 with nothing
+    in progress, is well-formed again and denotes the unrolling of the whole script (`abs … = ⟨unroll …, false⟩`): it
+    re-executes from its first statement.  Its error state, script kind, client, argument list are kept — and so is
+    its TIME STAMP: the restarted action does not get a new deadline (as coded). -/
+theorem C12_restart (R : Bool) (dp : List Plug) (c : CS) (h0 : c.dev.conn = 0) (hna : (connectDev c).aborted = false)
+    (h2 : (connectDev c).dev.conn = 2) :
+    (connectDev c).dev.acts = loginAction c.dev :: (match c.dev.acts with | a :: r => rewind a :: r | [] => []) ∧
+    ∀ a r, c.dev.acts = a :: r → StackOK R a.exec → a.exec ≠ [] →
+      ∃ outer, a.exec.getLast? = some outer ∧
+        (rewind a).exec = [{ outer with pos := 0, processing := false, plugItr := none }] ∧
+        StackOK R (rewind a).exec ∧ abs R dp (rewind a).exec = ⟨unroll R dp outer.block outer.plugs, false⟩ ∧
+        (rewind a).errnum = a.errnum ∧ (rewind a).com = a.com ∧ (rewind a).timeStamp = a.timeStamp ∧
+        (rewind a).clientId = a.clientId ∧ (rewind a).arglist = a.arglist := by
+  obtain ⟨_, _, _, _, hq⟩ := connectDev_cases c h0
+  refine ⟨?_, ?_⟩
+  · rcases hq hna with ⟨hne, _⟩ | ⟨_, hq⟩
+    · exact absurd h2 hne
+    · rw [hq]; rfl
+  · intro a r _ hok hne
+    obtain ⟨outer, h1, h3, h4, h5, h6⟩ := rewind_ok R dp a hok hne
+    exact ⟨outer, h1, C12_rewind_initial a outer h1, h3, h4, h5, h6, (rewind_keeps a).1, (rewind_keeps a).2.1, (rewind_keeps a).2.2.1⟩
+
+/-- … the same queue when the connect completes later, in `_handle_ready_device` on a CONNECTING device
+    (`tcp_finish_connect` after POLLOUT) -/
+theorem C12_restart_finish (c : CS) (h1 : c.dev.conn = 1) (h2 : (handleReady c).1.dev.conn = 2) :
+    (handleReady c).1.dev.acts = loginAction c.dev :: (match c.dev.acts with | a :: r => rewind a :: r | [] => []) := by
+  rw [handleReady_connects c h1 h2]; rfl
+
+/-- non-vacuity: the device of `C04`'s examples that is not connected, two client actions queued, `connect()` succeeding at
+    once: login first, then the two actions -/
+example : let c : CS := ⟨Timer.Ex.tcpDown, { Timer.Ex.envEarly with connects := [0], soerrs := [0] }, [], false⟩
+    c.dev.conn = 0 ∧ (connectDev c).aborted = false ∧ (connectDev c).dev.conn = 2 ∧
+    (connectDev c).dev.acts.map (fun a => (a.com, a.clientId)) = [(0, 0), (7, 1), (7, 2)] := by decide
+
+/-- **What the time-out branch of `_process_action` reports.**  The head `a` of the queue is overdue, `rest` is queued
+    behind it.  The callbacks grow by: the telemetry line of the time-out (if the client asked for telemetry), then the
+    head's completion with the KIND of the time-out, then — in queue order — the completion of every client action of
+    `rest`, with `abort` if the kind is the expect failure and with the same kind otherwise; actions of no client (login,
+    ping) are dropped silently.  Every client action is thereby reported exactly once and none is left in the queue. -/
+theorem C12_timeout_reports_all (rest : List Action) (c : CS) (a : Action) (o : Oracle) (out : List Out) (tmo : Option Time) :
+    (onTimeout rest c a o out tmo).2.2.1 =
+      out ++ timeoutTele c.dev a ++
+        ((if a.clientId != 0 then [Out.finish a.clientId (timeoutErr c.dev)] else []) ++
+         (rest.filter (·.clientId != 0)).map fun b =>
+            Out.finish b.clientId (if timeoutErr c.dev == .expfail then .abort else timeoutErr c.dev)) ∧
+    ∀ cid, cid ≠ 0 →
+      fcount cid (onTimeout rest c a o out tmo).2.2.1 = fcount cid out + qcount cid (a :: rest) ∧
+      qcount cid (onTimeout rest c a o out tmo).1.dev.acts = 0 := by
+  refine ⟨onTimeout_out rest c a o out tmo, fun cid hc => ?_⟩
+  rw [onTimeout_eq_failAll]
+  have h := C12_fail_all_reports rest c { a with errnum := timeoutErr c.dev } o (out ++ timeoutTele c.dev a) tmo cid hc
+  rw [fcount_append, fcount_timeoutTele] at h
+  refine ⟨?_, h.2⟩
+  rw [h.1, qcount_cons, qcount_cons]; simp
+
+/-- the three kinds: connect time-out while the device is not CONNECTED, login time-out while it is CONNECTED but not
+    logged in, expect failure otherwise -/
+theorem C12_timeout_kind (d : Dev) :
+    (d.conn ≠ 2 → timeoutErr d = .connectTimeout) ∧
+    (d.conn = 2 → d.loggedIn = false → timeoutErr d = .loginTimeout) ∧
+    (d.conn = 2 → d.loggedIn = true → timeoutErr d = .expfail) :=
+  timeoutErr_cases d
+
+/-- non-vacuity (the pass of `C04_tenure_pass`'s example): client 1 gets the expect failure, client 2 the abort -/
+example : (postPoll Timer.Ex.tcpBusy Timer.Ex.envLate ⟨[]⟩).2.2.1.filterMap
+    (fun x => match x with | .finish cid e => some (cid, e) | _ => none) = [(1, .expfail), (2, .abort)] := by decide
+
+/-- **Recovery (partial: what is proved is that no failure is remembered; that the request then succeeds depends on the
+    device).**  A device that is CONNECTED, with a positive time-out, `poll` reporting nothing for it, and exactly one —
+    not yet looked at — action `a` in its queue (the state after a successful login plus one client enqueue): the pass
+    reaches `_process_action` unaborted, and its first iteration runs the statement interpreter on `a` stamped with the
+    time of THIS pass — deadline `now + timeout`, whatever happened on this device before.  If the interpreter stalls
+    on it, the pass ends with `a` (same client, same script) at the head carrying that fresh time stamp.  With
+    `mkAction`'s initial context (`Props/C08`, `C08_initial`) this is a run from the first statement. -/
+theorem C12_recover_partial (d : Dev) (env : Env) (o : Oracle) (a : Action) (h2 : d.conn = 2) (hq : d.acts = [a])
+    (hts : a.timeStamp = none) (hto : 0 < d.timeout) (hfl : (if d.fd.isSome then env.revents else 0) = 0) :
+    ((Pm.Dev2.Login2.postPollReady d env).1.aborted = false ∧
+      Pm.Dev2.Login2.speaker (Pm.Dev2.Login2.postPollPre d env).1 = some { a with timeStamp := some env.now }) ∧
+    ((innerLoop env.now (loopBound { a with timeStamp := some env.now })
+          { (Pm.Dev2.Login2.postPollPre d env).1.dev with wake := none } { a with timeStamp := some env.now } o []).finished = false →
+      ∃ h r, (postPoll d env o).1.dev.acts = h :: r ∧ h.timeStamp = some env.now ∧ h.clientId = a.clientId ∧ h.com = a.com) :=
+  ⟨recover_speaker d env a h2 hq hts hto hfl, recover_stalled d env o a h2 hq hts hto hfl⟩
+
+/-- non-vacuity: the connected tcp device with one fresh action that waits for the device: after the pass it is at the
+    head, stamped with the time of the pass, and its full time-out (1 s) is registered -/
+example : let d : Dev := { exTcp with acts := [Timer.Ex.act2] }
+    d.conn = 2 ∧ Timer.Ex.act2.timeStamp = none ∧ 0 < d.timeout ∧
+    (postPoll d Timer.Ex.envEarly ⟨[]⟩).1.dev.acts.map (·.timeStamp) = [some 400000] ∧
+    (postPoll d Timer.Ex.envEarly ⟨[]⟩).2.2.2 = some 1000000 := by decide
+
+/-- **What is remembered: `retry_count`.**  (a) Every connect attempt raises it by one (successful or not) and sets
+    `last_retry`; (b) `dev_post_poll` never lowers it — in particular NOT after a successful connect or login; (c) it is
+    reset in one place only (besides `dev_create`): `dev_enqueue_actions`, when a client request put at least one
+    action on a device that is not CONNECTED (`installStep` is the per-device step of `install`).  So the back-off grows
+    over the life of the daemon: after seven attempts in total every failed reconnect is followed by a 60 s pause, unless
+    a client request for that device arrives while it is down. -/
+theorem C12_retry_count (d : Dev) (env : Env) (o : Oracle) (c : CS) (h0 : c.dev.conn = 0)
+    (com : Nat) (bnames : List Bytes) (cid : Nat) (tele : Bool) (al : Nat) (acc : List (Bytes × Dev) × Nat) (nd : Bytes × Dev) :
+    ((connectDev c).dev.retryCount = c.dev.retryCount + 1 ∧ (connectDev c).dev.lastRetry = c.env.now) ∧
+    d.retryCount ≤ (postPoll d env o).1.dev.retryCount ∧
+    ∃ d', (Pm.Dev2.Login2.installStep com bnames cid tele al acc nd).1 = acc.1 ++ [(nd.1, d')] ∧
+      d'.retryCount = (if (Pm.Daemon.enqueue nd.2 com bnames cid tele al).2 > 0 ∧ nd.2.conn ≠ 2 then 0 else nd.2.retryCount) :=
+  ⟨⟨(connectDev_cases c h0).2.2.1, (connectDev_cases c h0).2.1⟩, postPoll_retryLe d env o,
+   installStep_retryCount com bnames cid tele al acc nd⟩
+
+end recovery
 
 end Pm.Props.C12
